@@ -145,7 +145,7 @@ class Work:
                 "-I" + os.path.join(VERIF, "harness"),
                 "-I" + os.path.join(VERIF, "stubs"),
                 "-I" + os.path.join(VERIF, "models"),
-                "-DVERIF_SRC=" + SRC]
+                "-I" + SRC]
 
 
 class BuildError(Exception):
@@ -415,9 +415,14 @@ def run_ob(work, ob, idx):
         return r
     r.nprops = len(props)
     failed = [p for p in props if p.get("status") != "SUCCESS"]
-    wit = [p for p in failed if p.get("description") == "WITNESS"]
-    real = [p for p in failed if p.get("description") != "WITNESS"]
-    r.witness = bool(wit) or ob.no_witness
+    allwit = [p for p in props if p.get("description", "").startswith("WITNESS")]
+    wit = [p for p in failed if p.get("description", "").startswith("WITNESS")]
+    real = [p for p in failed if not p.get("description", "").startswith("WITNESS")]
+    # plain WITNESS: at least one must be reachable (= come back FAILED);
+    # named "WITNESS <name>": every one of them must be reachable
+    named = [p for p in allwit if p.get("description") != "WITNESS"]
+    named_ok = all(p.get("status") != "SUCCESS" for p in named)
+    r.witness = (bool(wit) and named_ok) or ob.no_witness
     r.failed = real
     r.prog = prog
     unw = [p for p in real if ".unwind." in p.get("property", "")]
